@@ -39,8 +39,11 @@
     opening one or a further chunk: each chunk restarts the timeout of the
     OPENING call, as in dealer.go — at clock T0 gives the deadline
     [dl = T0 + timeout] ([armed]; when it is the opening CALL its INVOCATION
-    carries no [timeout], i.e. the timeout was not forwarded: [timeout_forwarded_iff]
-    of Props/C13.v is the exact condition); the clock is below [dl] before the
+    carries no [timeout], i.e. the timeout was not forwarded: the callee THIS
+    call went to did not itself REGISTER with forward_timeout, or does not
+    announce call_timeout — [timeout_forwarded_iff] of Props/C13.v and
+    [realm_timeout_forwarded_only_if_callee_asked] below are the exact
+    condition, per callee since the repair fe3aa7b); the clock is below [dl] before the
     tick and reaches it with the tick; and since the opening CALL no final
     reply went to ([x],[q]) — up to the ERROR itself —, [x] sent no kill-mode
     CANCEL [q] and [y] gave no final answer to [i].
@@ -194,6 +197,38 @@ Theorem realm_timeout_fires : forall cfg ops1 ms ops2 pre0 x q opts proc a kw or
     ~ rrec (fst (step r1 (OTick ms))) (x, q).
 Proof. exact timeout_fires_noauthz_proof. Qed.
 Print Assumptions realm_timeout_fires.
+
+(** a positive timeout that is not forwarded arms the router's timer: the CALL
+    opens the call ([~ rrec]: no pending call with that id), is routed, its
+    INVOCATION carries no [timeout]: then a timer for ([x],[q]) is armed with
+    deadline clock + timeout *)
+Theorem realm_timeout_kept_arms_timer_partial : forall cfg ops1 x q opts proc a kw orc ops2 y i rid det,
+    Forall op_ok (ops1 ++ OMsg x (CCall q opts proc a kw) orc :: ops2) ->
+    k0 cfg + N.of_nat (List.length (ops1 ++ OMsg x (CCall q opts proc a kw) orc :: ops2)) <= max_idN ->
+    along gate_transparent (init_realm cfg) (ops1 ++ OMsg x (CCall q opts proc a kw) orc :: ops2) ->
+    let r1 := fst (run (init_realm cfg) ops1) in
+    snd (step r1 (OMsg x (CCall q opts proc a kw) orc)) = [(y, RInvocation i rid det a kw)] ->
+    ~ rrec r1 (x, q) ->
+    (0 < opt_int64 opts "timeout")%Z -> dget det "timeout" = None ->
+    exists t, nget (d_timers (r_dealer r1)) t = None /\
+              nget (d_timers (r_dealer (fst (step r1 (OMsg x (CCall q opts proc a kw) orc))))) t =
+              Some (clock (trace cfg ops1) + Z.to_N (opt_int64 opts "timeout"), (x, q)).
+Proof. exact timeout_kept_arms_timer_proof. Qed.
+Print Assumptions realm_timeout_kept_arms_timer_partial.
+
+Theorem realm_timeout_kept_arms_timer : forall cfg ops1 x q opts proc a kw orc ops2 y i rid det,
+    c_authz cfg = None ->
+    Forall op_ok (ops1 ++ OMsg x (CCall q opts proc a kw) orc :: ops2) ->
+    k0 cfg + N.of_nat (List.length (ops1 ++ OMsg x (CCall q opts proc a kw) orc :: ops2)) <= max_idN ->
+    let r1 := fst (run (init_realm cfg) ops1) in
+    snd (step r1 (OMsg x (CCall q opts proc a kw) orc)) = [(y, RInvocation i rid det a kw)] ->
+    ~ rrec r1 (x, q) ->
+    (0 < opt_int64 opts "timeout")%Z -> dget det "timeout" = None ->
+    exists t, nget (d_timers (r_dealer r1)) t = None /\
+              nget (d_timers (r_dealer (fst (step r1 (OMsg x (CCall q opts proc a kw) orc))))) t =
+              Some (clock (trace cfg ops1) + Z.to_N (opt_int64 opts "timeout"), (x, q)).
+Proof. exact timeout_kept_arms_timer_noauthz_proof. Qed.
+Print Assumptions realm_timeout_kept_arms_timer.
 
 (** ** (c) the triggers of an INTERRUPT *)
 Theorem realm_interrupt_only_for_pending_partial : forall cfg ops y i iopts pre post,
